@@ -65,12 +65,13 @@ impl Prop for P {
         let mut res = vec![];
         for &q in &qs {
             let g = f.get_key(q);
-            // get_key_into appends to the caller's buffer
-            let mut buf = b"pre".to_vec();
+            // get_key_into appends to the caller's buffer, whatever it already holds (0, 3, 70 or 1000 bytes)
+            let pre: Vec<u8> = match q % 4 { 0 => vec![], 1 => b"pre".to_vec(), 2 => vec![0xAB; 70], _ => vec![7u8; 1000] };
+            let mut buf = pre.clone();
             let found = f.get_key_into(q, &mut buf);
             match &g {
                 Some(k) => {
-                    if !found || buf != [b"pre".to_vec(), k.clone()].concat() {
+                    if !found || buf != [pre.clone(), k.clone()].concat() {
                         x = format!("get_key_into({}) found={} buf={} but get_key={}", q, found, hex(&buf), hex(k));
                     }
                 }
@@ -81,6 +82,29 @@ impl Prop for P {
                 }
             }
             res.push(g.map(|k| hex(&k)).unwrap_or("~".into()));
+        }
+        // arena use: the keys of all queried values gathered into ONE growing buffer
+        let mut arena: Vec<u8> = vec![];
+        let mut want: Vec<u8> = vec![];
+        for &q in &qs {
+            let before = arena.len();
+            let found = f.get_key_into(q, &mut arena);
+            match f.get_key(q) {
+                Some(k) => {
+                    want.extend_from_slice(&k);
+                    if !found || arena != want {
+                        x = format!("get_key_into({}) into a buffer already holding {} bytes: found={}", q, before, found);
+                        break;
+                    }
+                }
+                None => {
+                    if found {
+                        x = format!("get_key_into({}) true but get_key None (arena)", q);
+                        break;
+                    }
+                    arena.truncate(before);
+                }
+            }
         }
         let s = res.join(",");
         format!("S:{}\tM:{}\tX:{}", s, s, x)
